@@ -1,5 +1,5 @@
 """Helpers shared by the per-property check modules."""
-from vmon import snap
+from vmon import snap, core
 from vmon.core import REC, SKIP  # noqa
 from models import tiers as M
 from workloads import gen
@@ -122,10 +122,24 @@ def make_tier(kind, name, ents, lo, hi):
     _made[0] += 1
     if _made[0] % 17 == 0:
         return user_tier_class(kind)(name, ents, lo, hi)  # every 17th tier is an instance of a user-defined subclass
-    return (IntervalTier if kind == "I" else PointTier)(name, ents, lo, hi)
+    tier = (IntervalTier if kind == "I" else PointTier)(name, ents, lo, hi)
+    if _made[0] % 3 == 0:
+        # entries come into a tier by two doors, the constructor and insertEntry: every third tier gets its non-ASCII entries
+        # through the second one (taken out and put back in place), so that a tier's content does not depend on the door
+        with core.paused():
+            for e in ents:
+                if isinstance(e[-1], str) and not e[-1].isascii():
+                    try:
+                        cur = [c for c in tier.entries if tuple(c[:-1]) == tuple(e[:-1])]
+                        if len(cur) == 1:
+                            tier.deleteEntry(cur[0])
+                            tier.insertEntry(tuple(e))
+                    except Exception:
+                        return (IntervalTier if kind == "I" else PointTier)(name, ents, lo, hi)
+    return tier
 
 
-def rand_tier(rng, name="d", hi=5.0, nmax=7, pkind=0.25, labels=None, src=None, full_span=False, neg=0.0):
+def rand_tier(rng, name="d", hi=5.0, nmax=7, pkind=0.25, labels=None, src=None, full_span=False, neg=0.0, ties=0.0):
     """(kind, entries, lo, hi, tier) on decimals; with probability *neg* the whole tier is moved to the left so that its span starts
     below zero (Praat allows negative times; praatio only clips at zero when time-shifting)."""
     if rng.random() >= pkind:
@@ -133,7 +147,7 @@ def rand_tier(rng, name="d", hi=5.0, nmax=7, pkind=0.25, labels=None, src=None, 
         ents = gen.rand_interval_entries(rng, nmax, hi, labels=labels, src=src)
     else:
         kind = "P"
-        ents = gen.rand_point_entries(rng, nmax, hi, labels=labels, src=src)
+        ents = gen.rand_point_entries(rng, nmax, hi, labels=labels, src=src, ties=ties)
     if full_span:
         lo, top = 0.0, hi
     else:
@@ -157,8 +171,17 @@ def rand_textgrid(rng, hi=5.0, ntiers=(1, 5), nmax=5, labels=None, variants=True
     late = 0.22 <= r < 0.30  # the textgrid starts before every one of its tiers does
     if late:
         tg = Textgrid(0.0, hi + 0.5)
+    prev_points = []
     for i in range(rng.randrange(*ntiers)):
         kind, ents, lo, top, t = rand_tier(rng, "t%d" % i, hi, nmax, 0.3, labels, src, full_span=True)
+        if kind == "P":
+            if prev_points and rng.random() < 0.4:
+                # two point tiers of one textgrid mark the same instants (a tone tier and a break-index tier, say)
+                shared = rng.sample(prev_points, rng.randrange(1, len(prev_points) + 1))
+                own = [e for e in ents if all(abs(e[0] - x) > 1e-6 for x in shared)]
+                ents = sorted(own + [(x, rng.choice(labels or ["a", "b", "c"])) for x in shared])
+                t = make_tier(kind, "t%d" % i, ents, 0.0, hi)
+            prev_points = sorted({e[0] for e in ents} | set(prev_points))[:8]
         if late:
             ents = [tuple(x + 0.5 for x in e[:-1]) + (e[-1],) for e in ents]
             t = make_tier(kind, "t%d" % i, ents, 0.5, hi + 0.5)
